@@ -39,7 +39,7 @@ var (
 	vocabOS   = []string{"linux", "darwin", "windows", "plan9"}
 	vocabArch = []string{"amd64", "arm64", "386"}
 	// counter expressions a configuration may list
-	vocabCounterExprs = []string{"editor/opens", "go/cmd/build", "flag:{v,x,json}", "gopls/gotoolchain:{auto,local,other}", "crash/crash", "gopls/client:{vscode,vim}", "editor/opens\ufffd", "flag:\ufffd",
+	vocabCounterExprs = []string{"editor/opens", "go/cmd/build", "flag:{v,x,json}", "gopls/gotoolchain:{auto,local,other}", "crash/crash", "gopls/bug", "gopls/client:{vscode,vim}", "editor/opens\ufffd", "flag:\ufffd",
 		// bucket texts with a closing brace that is not the last byte: the list is everything after the first {, less one final }
 		"lang:{go}1,rust}", "mode:{a,b}x",
 		// characters that HTML escaping rewrites (a viewer must look the raw name up)
@@ -86,6 +86,13 @@ func localNames(r *verifrt.Rand, canary string) map[string]uint64 {
 			// the record and adding to it): present locally, so it is reported, as 0
 			m[name] = 0
 		}
+	}
+	if r.Intn(5) == 0 {
+		// one name used both for a plain counter and for stack counters (a
+		// configuration may list it in both roles, with different rates)
+		n := verifrt.Pick(r, []string{"crash/crash", "editor/opens", "gopls/bug"})
+		m[n] = uint64(1 + r.Intn(1000))
+		m[n+frames] = uint64(1 + r.Intn(1000))
 	}
 	if r.Intn(8) == 0 {
 		// values at the top of the range: a counter that saturated in the file
@@ -823,9 +830,11 @@ func judgeSeqRun(c *seqChecks, s *seqScenario, td *tdir, files map[string]*ufile
 			if uploadable {
 				// (a start time in a zone west of UTC shows an earlier calendar date:
 				// the report then waits for a later run, which the property allows)
-				if !sent && w <= today && w <= T.Format("2006-01-02") {
-					c.c02.Violate("uploadable-not-sent", fmt.Sprintf("week %s is uploadable (mode on, age ok, opt-in ok, sampling ok) but no request was made", w), rp)
-					continue
+				if !sent {
+					if w <= today && w <= T.Format("2006-01-02") {
+						c.c02.Violate("uploadable-not-sent", fmt.Sprintf("week %s is uploadable (mode on, age ok, opt-in ok, sampling ok) but no request was made", w), rp)
+					}
+					continue // nothing was sent: no content to judge
 				}
 				c.c02.Hit("mode-on-sent")
 				c.c02.Distinct(fmt.Sprintf("%s/%s/sent", w, modeClass))
